@@ -244,7 +244,9 @@ class Algebra:
 
     @cached_property
     def matrix_basis(self):
-        return matrix_rep(self.p, self.q, self.r, signature=self.signature)
+        # The basis-blades as products of basis vectors, in the order in which each blade is spelled.
+        blades = [tuple(int(ei, base=16) - self.start_index for ei in eJ[1:]) for eJ in self.canon2bin]
+        return matrix_rep(self.p, self.q, self.r, signature=self.signature, blades=blades)
 
     @cached_property
     def frame(self) -> list:
